@@ -47,6 +47,9 @@ func RegisterCleanup(dir string) {
 }
 
 func cleanupAll() {
+	if os.Getenv("VERIF_KEEP") != "" {
+		return
+	}
 	cleanupMu.Lock()
 	defer cleanupMu.Unlock()
 	for _, d := range cleanups {
